@@ -96,6 +96,18 @@ class StreamsFamily(ScenarioFamily):
                "callers": callers, "epilogue": ["close_pool"]}
         if self.ex == "asyncio":
             scn["sched"] = r.choice(["fifo", "shuffle"])
+            rc = gen.mk_rng(seed, "c12cancel")
+            if rc.random() < 0.3:
+                # one caller is cancelled at some suspension point: every other stream
+                # must still run to completion
+                ci = rc.randrange(n)
+                if rc.random() < 0.3:
+                    scn["cancel"] = {"caller": f"c{ci}", "kind": "deadline",
+                                     "t": rc.choice([0.001, 0.005, 0.02, 0.05, 0.1])}
+                else:
+                    scn["cancel"] = {"caller": f"c{ci}", "kind": "scope",
+                                     "timing": rc.choice(["early", "late"]),
+                                     "step": rc.randint(1, 120)}
         else:
             scn["policy"] = {"mode": "ops", "op_p": 0.5}
         return scn
@@ -121,9 +133,16 @@ def blocked_sites(res):
 
 
 def early_closers(scn):
-    return {op["token"].encode() for c in scn["callers"] for op in c["ops"]
-            if op.get("consume", "all") in ("close",) or
-            (isinstance(op.get("consume"), dict) and "chunks" in op["consume"])}
+    out = {op["token"].encode() for c in scn["callers"] for op in c["ops"]
+           if op.get("consume", "all") in ("close",) or
+           (isinstance(op.get("consume"), dict) and "chunks" in op["consume"])}
+    c = scn.get("cancel")
+    if c is not None:
+        # a cancelled caller abandons its stream just like an early close does
+        ci = int(c["caller"][1:])
+        if ci < len(scn["callers"]):
+            out |= {op["token"].encode() for op in scn["callers"][ci]["ops"] if op.get("token")}
+    return out
 
 
 def streams_oracle(res, scn):
@@ -145,7 +164,10 @@ def streams_oracle(res, scn):
         return
     for wid, p in h2_problems(w):
         if "opened with" in p or "bad stream id" in p:
-            w.violate("C12", "stream-limit-exceeded", {"wire": wid, "problem": p})
+            # a stream abandoned before it ended (cancelled or closed early) is never
+            # reset: its slot is free locally while the server still counts it
+            ab = ":after-abandoned-stream" if ("opened with" in p and early_closers(scn)) else ""
+            w.violate("C12", "stream-limit-exceeded" + ab, {"wire": wid, "problem": p})
             return
     for e in led.of("h2_srv_error"):
         if e[4] in ("TooManyStreamsError",):
@@ -155,13 +177,19 @@ def streams_oracle(res, scn):
     for e in led.of("h2_srv_rst"):
         peer = w.wires[e[3]].peer.inner
         rst_tokens.add(peer.tokens.get(e[4]))
+    inj = res.info.get("injected") or {}
+    torn = w.stats.get("torn_write", 0) > 0 or "_write_outgoing_data" in str(inj.get("site"))
     for key, out in sorted(res.outcomes.items()):
         tok = out["token"]
         if "exc" in out:
             if tok in rst_tokens:
                 continue
             msg = out.get("msg") or ""
-            if out["exc"] == "LocalProtocolError" and "Max outbound streams" in msg:
+            if out["exc"] == "WriteError" and torn and scn.get("cancel"):
+                # the cancellation interrupted a write: frames were lost or half written
+                # and the connection is unusable by design (fix d72a86d); not a wedge
+                continue
+            if "Max outbound streams" in msg:
                 # the client released its slot while the stream was still open on the wire
                 ec = early_closers(scn)
                 w.violate("C12", "request-beyond-limit-failed%s" % (
